@@ -14,7 +14,10 @@ pub struct CliOut {
     pub signal: Option<i32>,
     pub stdout: Vec<u8>,
     pub stderr: Vec<u8>,
+    /// the wall-clock watchdog expired without a diagnosis: inconclusive, never a verdict
     pub timed_out: bool,
+    /// the run was diagnosed as hung (deadlock or CPU budget exceeded) and killed: a definite misbehaviour
+    pub hang: Option<String>,
 }
 
 impl CliOut {
@@ -39,10 +42,11 @@ impl CliOut {
     }
     pub fn describe(&self) -> String {
         format!(
-            "code={:?} signal={:?} timed_out={} stdout={:?} stderr={:?}",
+            "code={:?} signal={:?} timed_out={}{} stdout={:?} stderr={:?}",
             self.code,
             self.signal,
             self.timed_out,
+            self.hang.as_ref().map(|h| format!(" HANG[{h}]")).unwrap_or_default(),
             crate::engine::truncate(&self.stdout_str(), 300),
             crate::engine::truncate(&self.stderr_str(), 300)
         )
@@ -51,29 +55,83 @@ impl CliOut {
 
 struct Watch {
     pid: u32,
+    start: Instant,
     deadline: Instant,
     id: u64,
+    last_cpu: u64,
+    idle_since: Instant,
+    last_probe: Instant,
 }
 
+/// CPU budget of one CLI run in seconds (user + system, all threads). The longest legitimate run is a
+/// 3-digit vanity search (~6 CPU-seconds expected); everything else takes milliseconds.
+pub const CPU_LIMIT_S: u64 = 300;
+/// A process whose threads are all asleep and which has made no CPU progress for this long, with its
+/// stdin at EOF and its output being drained, is deadlocked (hdwallet never sleeps or waits on anything else).
+pub const DEADLOCK_S: u64 = 15;
+
 static WATCH: OnceLock<Mutex<Vec<Watch>>> = OnceLock::new();
-static KILLED: OnceLock<Mutex<Vec<u64>>> = OnceLock::new();
+/// (id, None = wall-clock expiry | Some(diagnosis))
+static KILLED: OnceLock<Mutex<Vec<(u64, Option<String>)>>> = OnceLock::new();
 static NEXT: AtomicU64 = AtomicU64::new(1);
+
+/// (cpu ticks of the whole process, every thread asleep?, number of threads)
+fn probe(pid: u32) -> Option<(u64, bool, usize)> {
+    let stat = std::fs::read_to_string(format!("/proc/{pid}/stat")).ok()?;
+    let rest = &stat[stat.rfind(')')? + 2..];
+    let f: Vec<&str> = rest.split(' ').collect();
+    // after "pid (comm) " the fields start at state (index 0); utime/stime are fields 14/15 => 11/12 here
+    let cpu = f.get(11)?.parse::<u64>().ok()? + f.get(12)?.parse::<u64>().ok()?;
+    let mut all_sleeping = true;
+    let mut n = 0;
+    for t in std::fs::read_dir(format!("/proc/{pid}/task")).ok()? {
+        let t = t.ok()?;
+        if let Ok(ts) = std::fs::read_to_string(t.path().join("stat")) {
+            n += 1;
+            let state = ts[ts.rfind(')')? + 2..].chars().next().unwrap_or('R');
+            if state != 'S' {
+                all_sleeping = false;
+            }
+        }
+    }
+    Some((cpu, all_sleeping && n > 0, n))
+}
 
 fn watchdog() -> &'static Mutex<Vec<Watch>> {
     WATCH.get_or_init(|| {
-        std::thread::spawn(|| loop {
-            std::thread::sleep(Duration::from_millis(100));
-            let now = Instant::now();
-            let mut w = WATCH.get().unwrap().lock().unwrap();
-            w.retain(|e| {
-                if now >= e.deadline {
-                    unsafe { libc::kill(e.pid as i32, libc::SIGKILL) };
-                    KILLED.get_or_init(|| Mutex::new(vec![])).lock().unwrap().push(e.id);
-                    false
-                } else {
-                    true
-                }
-            });
+        std::thread::spawn(|| {
+            let ticks = unsafe { libc::sysconf(libc::_SC_CLK_TCK) }.max(1) as u64;
+            loop {
+                std::thread::sleep(Duration::from_millis(100));
+                let now = Instant::now();
+                let mut w = WATCH.get().unwrap().lock().unwrap();
+                w.retain_mut(|e| {
+                    let mut verdict: Option<Option<String>> = None;
+                    if now >= e.deadline {
+                        verdict = Some(None);
+                    } else if now.duration_since(e.start) > Duration::from_secs(2) && now.duration_since(e.last_probe) > Duration::from_millis(500) {
+                        e.last_probe = now;
+                        if let Some((cpu, sleeping, n)) = probe(e.pid) {
+                            if cpu / ticks > CPU_LIMIT_S {
+                                verdict = Some(Some(format!("unbounded computation: consumed more than {CPU_LIMIT_S} CPU-seconds")));
+                            } else if cpu != e.last_cpu || !sleeping {
+                                e.last_cpu = cpu;
+                                e.idle_since = now;
+                            } else if now.duration_since(e.idle_since) >= Duration::from_secs(DEADLOCK_S) {
+                                verdict = Some(Some(format!("deadlock: all {n} threads asleep and no CPU progress for {DEADLOCK_S} s (stdin at EOF, output drained)")));
+                            }
+                        }
+                    }
+                    match verdict {
+                        Some(v) => {
+                            unsafe { libc::kill(e.pid as i32, libc::SIGKILL) };
+                            KILLED.get_or_init(|| Mutex::new(vec![])).lock().unwrap().push((e.id, v));
+                            false
+                        }
+                        None => true,
+                    }
+                });
+            }
         });
         Mutex::new(vec![])
     })
@@ -131,11 +189,13 @@ pub fn run_raw(exe: &Path, args: &[OsString], env: &[(String, String)], stdin: &
                 stdout: vec![],
                 stderr: format!("spawn failed: {e}").into_bytes(),
                 timed_out: true,
+                hang: None,
             }
         }
     };
     let id = NEXT.fetch_add(1, Ordering::Relaxed);
-    watchdog().lock().unwrap().push(Watch { pid: child.id(), deadline: Instant::now() + timeout, id });
+    let now = Instant::now();
+    watchdog().lock().unwrap().push(Watch { pid: child.id(), start: now, deadline: now + timeout, id, last_cpu: 0, idle_since: now, last_probe: now });
     let mut sin = child.stdin.take().unwrap();
     let data = stdin.to_vec();
     let writer = std::thread::spawn(move || {
@@ -145,18 +205,12 @@ pub fn run_raw(exe: &Path, args: &[OsString], env: &[(String, String)], stdin: &
     let out = child.wait_with_output();
     let _ = writer.join();
     watchdog().lock().unwrap().retain(|e| e.id != id);
-    let timed_out = KILLED
-        .get()
-        .map(|k| {
-            let mut k = k.lock().unwrap();
-            if let Some(p) = k.iter().position(|x| *x == id) {
-                k.remove(p);
-                true
-            } else {
-                false
-            }
-        })
-        .unwrap_or(false);
+    let killed: Option<Option<String>> = KILLED.get().and_then(|k| {
+        let mut k = k.lock().unwrap();
+        k.iter().position(|x| x.0 == id).map(|p| k.remove(p).1)
+    });
+    let timed_out = matches!(killed, Some(None));
+    let hang = killed.flatten();
     match out {
         Ok(o) => {
             use std::os::unix::process::ExitStatusExt;
@@ -166,9 +220,10 @@ pub fn run_raw(exe: &Path, args: &[OsString], env: &[(String, String)], stdin: &
                 stdout: o.stdout,
                 stderr: o.stderr,
                 timed_out,
+                hang,
             }
         }
-        Err(e) => CliOut { code: None, signal: None, stdout: vec![], stderr: format!("wait failed: {e}").into_bytes(), timed_out: true },
+        Err(e) => CliOut { code: None, signal: None, stdout: vec![], stderr: format!("wait failed: {e}").into_bytes(), timed_out: true, hang: None },
     }
 }
 
